@@ -33,6 +33,43 @@ def mutate (s : String) (other : String) : G String := do
     let swap := fun c => if c = '(' then '{' else if c = '}' then ')' else if c = '[' then '(' else c
     pure (String.ofList (cs.take i ++ (cs.drop i).map swap))
 
+/-- structural mutation on the AST: hollow out one braced or parenthesised construct (replace a
+    nested statement, a combination operand or a pair group by plain text, nothing, or a lone
+    symbol; empty a component) -/
+def hollowStmt : G Stmt := do
+  let r ← below 4
+  pure (match r with
+    | 0 => .mk [.filler "some text".toList]
+    | 1 => .mk []
+    | 2 => .mk [.filler "A".toList]
+    | _ => .mk [.ann { sym := Sym.A } true (.leaf [])])
+
+mutual
+partial def hollowS (s : Stmt) : G Stmt := do
+  let ps := s.parts
+  if ps.isEmpty then return s
+  let i ← below ps.length
+  let mut out : List Part := []
+  for (p, j) in ps.zipIdx do
+    if j = i then out := out ++ [← hollowP p] else out := out ++ [p]
+  pure (.mk out)
+partial def hollowP (p : Part) : G Part := do
+  match p with
+  | .ann h o e => if (← chance 1 2) then pure (.ann h o (.leaf [])) else pure (.ann h o e)
+  | .nested h s => if (← chance 1 2) then pure (.nested h (← hollowStmt)) else pure (.nested h (← hollowS s))
+  | .ncomb h t => pure (.ncomb h (← hollowN t))
+  | .pairs t => pure (.pairs (← hollowG t))
+  | q => pure q
+partial def hollowN (t : NTree) : G NTree := do
+  match t with
+  | .one h s => if (← chance 2 3) then pure (.one h (← hollowStmt)) else pure (.one h (← hollowS s))
+  | .op o l r => if (← chance 1 2) then pure (.op o (← hollowN l) r) else pure (.op o l (← hollowN r))
+partial def hollowG (t : GTree) : G GTree := do
+  match t with
+  | .grp s => if (← chance 1 2) then pure (.grp (← hollowStmt)) else pure (.grp (← hollowS s))
+  | .op o l r => if (← chance 1 2) then pure (.op o (← hollowG l) r) else pure (.op o l (← hollowG r))
+end
+
 def convArgs (text : String) (v : Nat) : Json :=
   Json.mkObj [("text", (text : Json)), ("id", ("1" : Json)), ("orig", ("o" : Json)),
     ("ext", ((v % 2 = 1 : Bool) : Json)), ("ann", (((v / 2) % 2 = 1 : Bool) : Json)), ("dyn", (((v / 4) % 8 = 7 : Bool) : Json)),
@@ -48,8 +85,13 @@ def genC10Cases (tier : String) (seed : Nat) : Array Case := Id.run do
   for i in [0:n] do
     let (v, r0) := below 128 rng
     rng := r0
-    let kind := i % 4
-    if kind = 0 then
+    let kind := i % 5
+    if kind = 4 then
+      let (s, r1) := (if i % 2 = 0 then genNested { depth := 2, pairs := true, propCombos := true } else genSupC02 2) rng
+      let (h, r2) := hollowS s r1
+      rng := r2
+      out := out.push { id := s!"c10-h{i}", op := "conv", args := convArgs (String.ofList (renderS h)) v, tag := "hollowed-statement" }
+    else if kind = 0 then
       let (t, r1) := genTokenString (if i % 8 = 0 then 120 else 30) rng
       rng := r1
       out := out.push { id := s!"c10-t{i}", op := "conv", args := convArgs t v, tag := "token-string" }
